@@ -891,18 +891,32 @@ def r14_default_seed(facts):
     bw = m.bw
     defaults = []     # expressions used when the seed is None
     givens = []       # (expr, bound vars) used when the seed is Some
+    dropped = []      # (expr, why): places a supplied seed can reach where it is not bound
     all_nodes = []
     for b_ in m.facts.nested(bw):
         all_nodes.extend(walk_ctx(m.facts.root(b_)))
     for n, ctx in all_nodes:
         k = n.get("k")
         if k == "Match" and var_of(n["scrutinee"]) == m.seedv and peel(n["scrutinee"]).get("k") in ("VarRef", "UpvarRef"):
+            some_open, none_open = True, True     # can a Some / a None scrutinee still reach the next arm?
             for a in n["arms"]:
                 p = a["pat"]
+                guarded = a.get("guard") is not None
                 if p.get("k") == "Variant" and p["variant"] == "None":
-                    defaults.append(a["body"])
+                    if none_open:
+                        defaults.append(a["body"])
+                    none_open = none_open and guarded
                 elif p.get("k") == "Variant" and p["variant"] == "Some":
-                    givens.append((a["body"], [v for v, _, _, _ in F.pat_bindings(p)]))
+                    if some_open:
+                        givens.append((a["body"], [v for v, _, _, _ in F.pat_bindings(p)]))
+                    some_open = some_open and guarded
+                elif p.get("k") in ("Wild", "Binding"):
+                    if none_open:
+                        defaults.append(a["body"])
+                    if some_open and (strip(a["body"]).get("ty") or "") != "!":
+                        dropped.append((a["body"], "a supplied seed that does not take an earlier arm ends in the catch-all arm"))
+                    none_open = none_open and guarded
+                    some_open = some_open and guarded
         elif k == "If" and strip(n["cond"]).get("k") == "Let" and var_of(strip(n["cond"])["e"]) == m.seedv:
             cond = strip(n["cond"])
             if F._is_some_pat(cond["pat"]) and n.get("else") is not None:
@@ -932,6 +946,19 @@ def r14_default_seed(facts):
         body = _tail(d)
         ok, why = _is_ones_of_self(m, body)
         c.check(ok, "seed:default", loc(bw, body), "None seed -> ones with self's dimensions (Array::from((self.dimensions.clone(), vec![1.0; n])))", why)
+    # the seed a pass starts from is a plain untracked array: the derivatives run with their operands un-tracked, so everything they
+    # compute from an untracked seed is untracked; a tracked seed makes every gradient of the pass a tracked graph node holding operands
+    for e_ in defaults + [g for g, _ in givens if g is not None]:
+        t_ = _tail(e_)
+        mark = [x for x in walk(t_) if x.get("k") == "Call" and resolved(x) in ("corgi::array::Array::tracked", "corgi::array::Array::start_tracking")]
+        v_ = var_of(t_)
+        if not mark and v_ and peel(t_).get("k") == "VarRef" and v_ in m.binds and m.binds[v_][0] == "let" and m.binds[v_][1] is not None:
+            mark = [x for x in walk(m.binds[v_][1]) if x.get("k") == "Call" and resolved(x) in ("corgi::array::Array::tracked", "corgi::array::Array::start_tracking")]
+        c.check(not mark, "seed:untracked", loc(bw, t_), "the seed is used without marking it tracked",
+                "the seed of the pass is marked tracked (`%s`): every gradient computed from it is a tracked node with operands, not a plain untracked array "
+                "(gradients keep the graph alive and later operations differentiate into them)" % show(t_)[:70])
+    for g, why_ in dropped:
+        c.bad("seed:given", loc(bw, _tail(g)), "%s, which uses `%s` instead of the seed: the gradients are not those of the seed the caller supplied" % (why_, show(_tail(g))[:60]))
     for g, vs in givens:
         if g is None:
             c.ok("seed:given", loc(bw, m.root), "a supplied seed is used as given (unwrap_or*)")
@@ -939,6 +966,14 @@ def r14_default_seed(facts):
         body = _tail(g)
         c.check(var_of(body) in vs and peel(body).get("k") in ("VarRef", "UpvarRef"), "seed:given", loc(bw, body),
                 "a supplied seed is used as given", "a supplied seed is not used as given: %s" % show(body)[:80])
+    return c
+
+
+def r14_seed_untracked(facts):
+    """the seed a backward pass starts from is not marked tracked (gradients are plain untracked arrays)"""
+    c = r14_default_seed(facts)
+    c.obs = [o for o in c.obs if "@seed:untracked" in o.key or "@floor:" in o.key or "@anchor-missing:" in o.key or "@coverage-reduced:" in o.key]
+    c.title = "the seed of a pass is a plain untracked array"
     return c
 
 
@@ -1208,6 +1243,44 @@ def _plain_iteration_of(e, pred):
     return pred(e)
 
 
+
+def _fresh_tail(base, b, depth=0):
+    """True iff the value of body b is an array built by a checked constructor (directly, or by a crate-local helper whose value is)."""
+    tl = strip(base.root(b))
+    while isinstance(tl, dict) and tl.get("k") == "Block" and tl.get("e") is not None:
+        lets = {st["pat"]["v"]: st["init"] for st in tl["stmts"] if st["s"] == "let" and st["pat"].get("k") == "Binding" and st.get("init") is not None}
+        tl = strip(tl["e"])
+        if isinstance(tl, dict) and tl.get("k") == "VarRef" and tl["v"] in lets:
+            tl = strip(lets[tl["v"]])
+    if not (isinstance(tl, dict) and tl.get("k") == "Call"):
+        return False
+    r = resolved(tl) or ""
+    if r.startswith("<corgi::array::Array as core::convert::From<"):
+        return True
+    if depth < 2:
+        hb = base.by_def.get(r) if hasattr(base, "by_def") else None
+        if hb is None:
+            hb = next((x for x in base.fns() if x["def"] == r), None)
+        if hb is not None and hb.get("thir") and not any(y.get("k") == "Return" for y in walk(base.root(hb))):
+            return _fresh_tail(base, hb, depth + 1)
+    return False
+
+
+def _detaching_function(base, b, var):
+    """`var` is a by-value Array parameter of fn b, b stores to no field, has no early return, and its value is a freshly built array."""
+    if b["kind"] not in ("Fn", "AssocFn") or not b.get("thir"):
+        return False
+    byval = {v for p_ in base.params(b) if p_.get("pat") and p_["pat"].get("k") == "Binding" and p_["pat"].get("ty") == ARRAY for v in [p_["pat"]["v"]]}
+    if var not in byval:
+        return False
+    for x in walk(base.root(b)):
+        if x.get("k") == "Return":
+            return False
+        if x.get("k") in ("Assign", "AssignOp") and strip(x.get("l") or {}).get("k") != "VarRef":
+            return False
+    return _fresh_tail(base, b)
+
+
 def r10_flag_writers_and_pairing(facts):
     """R10: who writes the tracking flags; stop/restore pairing around the derivative call."""
     c = Ctx("R10", facts, "tracking flags: writers, callers, and stop/restore pairing in the pass")
@@ -1387,6 +1460,9 @@ def r10_flag_writers_and_pairing(facts):
                 elif recv.get("k") == "VarRef" and b.get("impl_self") == ARRAY and not b.get("reachable") \
                         and recv["v"] == self_var(base, b) and (b.get("inputs") or [""])[0] == ARRAY:
                     fresh, why = True, "on the by-value array under construction"
+                if not fresh and r.endswith("::untracked") and recv.get("k") == "VarRef" and _detaching_function(base, b, recv["v"]):
+                    fresh, why = True, ("on a by-value parameter of a function that returns a freshly built array and stores nothing: the caller's own handles "
+                                        "keep their flags (the flag is per handle) and no graph leaves the function")
                 c.check(fresh, "flag-call:%s#%s" % (b["def"], r.split("::")[-1]), loc(b, n),
                         "%s() %s" % (r.split("::")[-1], why),
                         "%s() applied to an existing array inside the library (%s)" % (r.split("::")[-1], show(recv)[:80]))
@@ -1846,6 +1922,23 @@ def r24_count_protocol(facts):
                     "a child's counter is incremented only while counting consumers and only if that child is tracked",
                     "counter increment %s" % ("is not guarded by exactly the child's is_tracked flag (children that are never delivered to keep a residue; "
                                               "children that are delivered to but not counted underflow)" if ok_body else "outside the counting function"))
+            # ... and by nothing else that the delivery side does not mirror: backward delivers to every tracked child of the node it runs on,
+            # whatever that node's own flags are (the node a pass is started on need not be tracked)
+            selfv_pc = self_var(vf, b) if b["kind"] in ("Fn", "AssocFn") else None
+            for cond, truth in facts_here:
+                flagged = None
+                for x in walk(cond):
+                    if x.get("k") == "Field" and x.get("adt") == ARRAY and x.get("name") in ("is_tracked", "keep_gradient") and selfv_pc is not None \
+                            and var_of(peel(x["e"])) == selfv_pc and peel(x["e"]).get("k") in ("VarRef", "UpvarRef"):
+                        flagged = x["name"]
+                    elif x.get("k") == "VarRef" and x["v"] in binds and binds[x["v"]][0] == "let" and isinstance(binds[x["v"]][1], dict):
+                        for y in walk(binds[x["v"]][1]):
+                            if y.get("k") == "Field" and y.get("adt") == ARRAY and y.get("name") in ("is_tracked", "keep_gradient") and selfv_pc is not None \
+                                    and var_of(peel(y["e"])) == selfv_pc and peel(y["e"]).get("k") in ("VarRef", "UpvarRef"):
+                                flagged = y["name"]
+                if flagged:
+                    c.bad("count:increment#own-flag", loc(b, cond), "the counting of a node's consumers depends on the node's own `%s` flag: backward delivers to the tracked children "
+                          "of every node it runs on (the array a pass is started on need not be tracked), so an uncounted delivery underflows the counter" % flagged)
             rec_ok = None
             for n2, ctx2 in walk_ctx(broot):
                 is_rec = n2.get("k") == "Call" and resolved(n2) == pc["def"] and var_of(n2["args"][0]) == owner
